@@ -192,33 +192,32 @@ theorem fingerprintUptime_type_idem (o : UpOpts) (flags : Nat) (frag : Bool) (a 
 theorem emod32_range (x : Int) : 0 ≤ Int.emod x 4294967296 ∧ Int.emod x 4294967296 < 4294967296 :=
   ⟨Int.emod_nonneg _ (by decide), Int.emod_lt_of_pos _ (by decide)⟩
 
-theorem gen_uptime_eq_ref (o : UpOpts) (frag : Bool) (t a b : Nat) (now rcv : Int) :
-    Gen.fingerprintUptime o frag t a b now rcv = fingerprintUptimeRef o frag t a b now rcv := by
-  have hr1 := emod32_range (((b : Nat) : Int) - ((a : Nat) : Int))
-  first
-  | (unfold Gen.fingerprintUptime fingerprintUptimeRef
-     simp only [gen_validUptime]
-     done)
-  | (unfold Gen.fingerprintUptime fingerprintUptimeRef
-     simp only [gen_validUptime]
-     grind)
-  | (unfold Gen.fingerprintUptime fingerprintUptimeRef
-     simp only [gen_validUptime]
-     have hinv : Int.emod (-(Int.emod (((b : Nat) : Int) - ((a : Nat) : Int)) 4294967296) - 1) 4294967296
-         = 4294967295 - Int.emod (((b : Nat) : Int) - ((a : Nat) : Int)) 4294967296 := by
-       generalize Int.emod (((b : Nat) : Int) - ((a : Nat) : Int)) 4294967296 = x at *
-       show (-x - 1) % 4294967296 = _
-       omega
-     simp only [hinv]
-     grind)
-
 /-- `fingerprint_uptime` as printed from the source = the model's (C13) -/
 theorem gen_fingerprintUptime (o : UpOpts) (hD : o.Dom) (frag : Bool) (flags a b : Nat) (now rcv : Int) :
     Gen.fingerprintUptime o frag (tcpType flags) a b now rcv
       = ofUpOut (fingerprintUptime o flags frag a b (now - rcv)) := by
   first
   | (unfold Gen.fingerprintUptime fingerprintUptimeFields; rw [fingerprintUptime_type_idem])
-  | (rw [gen_uptime_eq_ref]; exact uptimeRef_eq_model o hD frag flags a b now rcv)
+  | (have gen_uptime_eq_ref : ∀ (t a b : Nat), Gen.fingerprintUptime o frag t a b now rcv = fingerprintUptimeRef o frag t a b now rcv := by
+       intro t a b
+       have hr1 := emod32_range (((b : Nat) : Int) - ((a : Nat) : Int))
+       first
+       | (unfold Gen.fingerprintUptime fingerprintUptimeRef
+          simp only [gen_validUptime]
+          done)
+       | (unfold Gen.fingerprintUptime fingerprintUptimeRef
+          simp only [gen_validUptime]
+          grind)
+       | (unfold Gen.fingerprintUptime fingerprintUptimeRef
+          simp only [gen_validUptime]
+          have hinv : Int.emod (-(Int.emod (((b : Nat) : Int) - ((a : Nat) : Int)) 4294967296) - 1) 4294967296
+              = 4294967295 - Int.emod (((b : Nat) : Int) - ((a : Nat) : Int)) 4294967296 := by
+            generalize Int.emod (((b : Nat) : Int) - ((a : Nat) : Int)) 4294967296 = x at *
+            show (-x - 1) % 4294967296 = _
+            omega
+          simp only [hinv]
+          grind)
+     rw [gen_uptime_eq_ref]; exact uptimeRef_eq_model o hD frag flags a b now rcv)
 
 /-- **C13 against the source text**: `fingerprint_uptime` as printed from the working tree equals the rational-arithmetic
     reading of the property (floats read as exact rationals), for all timestamps, clocks, types and thresholds in the
